@@ -234,6 +234,12 @@ class StmtMixin:
                 if not (isinstance(base, VRef) and isinstance(s.heap[base.ref], ObjState)):
                     raise Unsupported(f"attribute assignment on {type(self.deref(base, s)).__name__}")
                 obj = s.heap[base.ref]
+                # property with a setter: the assignment is a call of the setter
+                mod_, cls_ = self.class_of_record(obj.cls) if obj.cls in self.U.records else (None, None)
+                if mod_ is not None and f"{cls_}.{target.attr}.setter" in mod_.funcs and not self.U.records[obj.cls].has(target.attr):
+                    for r_, s3 in self.call_function(mod_, f"{cls_}.{target.attr}.setter", [base, val], {}, s):
+                        res.append((s3, r_ if isinstance(r_, Exc) else None))
+                    continue
                 self.check_field_write(obj, target.attr, s)
                 if obj.cls in self.U.records and self.U.records[obj.cls].has(target.attr):
                     fs = self.U.records[obj.cls].field_sort(target.attr)
@@ -246,6 +252,22 @@ class StmtMixin:
                         continue
                     val2 = val
                 obj.fields[target.attr] = val2
+                res.append((s, None))
+            return res
+        if isinstance(target, ast.Subscript) and isinstance(target.slice, ast.Slice):
+            sl = target.slice
+            if sl.lower is not None or sl.upper is not None or sl.step is not None:
+                raise Unsupported("slice assignment other than x[:] = ...")
+            res = []
+            for base, s in self.ev(target.value, st):
+                if isinstance(base, Exc):
+                    res.append((s, base))
+                    continue
+                if not (isinstance(base, VRef) and isinstance(s.heap[base.ref], VSeq)):
+                    raise Unsupported("x[:] = ... on a non-list")
+                new = self.as_seq(val, s, "slice assignment")
+                cur = s.heap[base.ref]
+                s.heap[base.ref] = VSeq(new.elem if new.elem.kind != "any" else cur.elem, list(new.pieces))
                 res.append((s, None))
             return res
         if isinstance(target, ast.Subscript):
